@@ -88,6 +88,10 @@ def extended_class(cls, variant=0):
             """A public method that happens to be a staticmethod."""
             return jobs + spare
 
+        def drain(self, graceful: bool = True, rounds: int = 1) -> int:
+            """A switch that is on by default."""
+            return rounds if graceful else -rounds
+
         def blank_doc(self, n: int = 0) -> int:
             ""
             return n
